@@ -550,6 +550,9 @@ def run(ctx: RuleContext, p: Program) -> None:
     ctx.try_rule(_c10.rule_map_first, p, 'MAP-FIRST')
     from . import viewlive as _vl
     ctx.try_rule(_vl.rule_store_edge, p, 'STORE-EDGE')
+    # the base case of the induction over edit histories: the tree the parser builds is a tree of the tokens it inserts
+    from . import treesem as _tsm
+    ctx.try_rule(_tsm.rule_tree_sem, p, 'TREE-SEM')
     ctx.not_decided += ['nesting / non-overlap of child spans (runtime)', 'single ownership of every significant token (runtime)',
                         'that every tree leaf is currently in the store (runtime)']
     ctx.assumptions += ['reattach(store) re-binds a whole subtree (COVER-REATTACH)', 'tokens need no reattach (their store is their handle)']
